@@ -324,7 +324,21 @@ func raceExtra(ctx *core.Ctx) (int, string, []core.ExtraFailure) {
 	if ctx.Tier == "thorough" {
 		bulkDur, minCycles = "20s", "2000"
 	}
-	for _, n := range []string{"300", "1000"} {
+	// sizes: small (many cycles) and beyond internal batching thresholds — a single
+	// Delete(keys...) / Map replace of 2 000, 6 000 and 262 144 keys must be ONE step too
+	for _, n := range []string{"300", "1000", "2000", "6000", "262144"} {
+		bulkDur, minCycles := bulkDur, minCycles
+		switch {
+		case n == "262144" && ctx.Tier == "thorough":
+			bulkDur, minCycles = "10s", "12"
+		case n == "262144":
+			bulkDur, minCycles = "500ms", "3"
+		case (n == "2000" || n == "6000") && ctx.Tier != "thorough":
+			bulkDur, minCycles = "500ms", "8"
+		}
+		if ctx.Escalate > 1 && ctx.Tier != "thorough" && n != "300" && n != "1000" {
+			bulkDur = "3s"
+		}
 		so, se3, err := runRacer(bin, timeout, "-mode", "bulk", "-seed", seed, "-n", n, "-dur", bulkDur, "-mincycles", minCycles)
 		var bn, cycles, obs, wits int
 		fmt.Sscanf(strings.TrimSpace(lastLineWith(so, "BULKSTAT ")), "BULKSTAT n=%d cycles=%d observations=%d witnesses=%d", &bn, &cycles, &obs, &wits)
